@@ -113,6 +113,37 @@ def eVT (inF : Bool) (env : Env) : Var → List Ans
   | .expr _ p ss => ePT inF env p ++ eSs inF env ss
 
 /-! ### closures inside expressions, statements, blocks -/
+-- what is still to be read of an `until` condition after it has been walked (`Core.restE`)
+mutual
+def rE (inF : Bool) (env : Env) : Expr → List Ans
+  | .paren _ e => rE inF env e
+  | .un _ _ e => rE inF env e
+  | .bin _ l _ r => rE inF env l ++ rE inF env r
+  | .func _ _ _ => []
+  | .call _ => []
+  | .tbl _ fs => rFs inF env fs
+  | .dots t => sRead inF env t
+  | .var (.name t) => sRead inF env t
+  | .var (.expr _ p _) => rP inF env p
+  | .nil _ => []
+  | .true_ _ => []
+  | .false_ _ => []
+  | .num _ => []
+  | .str _ _ _ => []
+  | .unsupported _ => []
+def rP (inF : Bool) (env : Env) : Prefix → List Ans
+  | .name t => sRead inF env t
+  | .expr e => rE inF env e
+def rF (inF : Bool) (env : Env) : Field → List Ans
+  | .exprKey _ k v => rE inF env k ++ rE inF env v
+  | .nameKey _ _ v => rE inF env v
+  | .noKey v => rE inF env v
+  | .unsupported _ => []
+def rFs (inF : Bool) (env : Env) : FieldList → List Ans
+  | .nil => []
+  | .cons f rest => rF inF env f ++ rFs inF env rest
+end
+
 mutual
 def dE (inF : Bool) (env : Env) : Expr → List Ans
   | .paren _ e => dE inF env e
@@ -158,6 +189,34 @@ def dV (inF : Bool) (env : Env) : Var → List Ans
 def dVs (inF : Bool) (env : Env) : VarList → List Ans
   | .nil => []
   | .cons v rest => dV inF env v ++ dVs inF env rest
+/-- the walk of an `until` condition (`Core.topE`) -/
+def tE (inF : Bool) (env : Env) : Expr → List Ans
+  | .paren _ e => tE inF env e
+  | .un _ _ e => tE inF env e
+  | .bin _ l _ r => tE inF env l ++ tE inF env r
+  | .func _ _ body => sBody env none body
+  | .call (.mk _ p ss) => eP inF env p ++ dP inF env p ++ sSs inF env ss
+  | .tbl _ fs => tFs inF env fs
+  | .var (.name _) => []
+  | .var (.expr _ p ss) => tP inF env p ++ sSs inF env ss
+  | .nil _ => []
+  | .true_ _ => []
+  | .false_ _ => []
+  | .dots _ => []
+  | .num _ => []
+  | .str _ _ _ => []
+  | .unsupported _ => []
+def tP (inF : Bool) (env : Env) : Prefix → List Ans
+  | .name _ => []
+  | .expr e => tE inF env e
+def tF (inF : Bool) (env : Env) : Field → List Ans
+  | .exprKey _ k v => tE inF env k ++ tE inF env v
+  | .nameKey _ _ v => tE inF env v
+  | .noKey v => tE inF env v
+  | .unsupported _ => []
+def tFs (inF : Bool) (env : Env) : FieldList → List Ans
+  | .nil => []
+  | .cons f rest => tF inF env f ++ tFs inF env rest
 /-- suffixes of a call statement: each is read, then entered -/
 def sSs (inF : Bool) (env : Env) : SuffixList → List Ans
   | .nil => []
@@ -207,7 +266,7 @@ def sStmt (inF : Bool) (env : Env) : Stmt → List Ans × Env
   | .while_ _ c b => (eE inF env c ++ dE inF env c ++ (sBlock inF env b).1, env)
   | .repeat_ _ b c =>
     let r := sBlock inF env b
-    (r.1 ++ dE inF r.2 c ++ eE inF r.2 c, env)
+    (r.1 ++ tE inF r.2 c ++ rE inF r.2 c, env)
   | .if_ _ c b elifs els =>
     (eE inF env c ++ dE inF env c ++ (sBlock inF env b).1 ++ sElifs inF env elifs ++
       (match els with
